@@ -352,9 +352,17 @@ class Queue(Greenlet):
             self._add_queued(entry)
 
     def _remove(self, id):
-        self._pool_spawn('store', self.store.remove, id)
+        self._pool_spawn('store', self._remove_stored, id)
         self.queued_ids.discard(id)
-        self.active_ids.discard(id)
+
+    def _remove_stored(self, id):
+        # The message stays marked in flight until it is gone from storage:
+        # an announcement or load entry for it that arrives while the removal
+        # is still running must not get it attempted once more.
+        try:
+            self.store.remove(id)
+        finally:
+            self.active_ids.discard(id)
 
     def _bounce(self, envelope, reply):
         bounce = self.bounce_factory(envelope, reply)
